@@ -52,12 +52,6 @@ Print Assumptions no_slot_read_before_written.
      eqv_refl / eqv_sym / eqv_trans : "same report" is an equivalence
      combine_pair_proper : combine [a; b] respects eqv in the accumulator a
      combine_flat        : combine [combine A; combine B] ~ combine (A ++ B), error-ness included *)
-Definition combine_laws (P : Type) (combine : list P -> option P) (eqv : P -> P -> Prop) : Prop :=
-  (forall a, eqv a a) /\ (forall a b, eqv a b -> eqv b a) /\ (forall a b c, eqv a b -> eqv b c -> eqv a c) /\
-  (forall a a' b, eqv a a' -> opt_eqv P eqv (combine [a; b]) (combine [a'; b])) /\
-  (forall A B, A <> [] -> B <> [] ->
-    opt_eqv P eqv (match combine A, combine B with Some a, Some b => combine [a; b] | _, _ => None end) (combine (A ++ B)%list)).
-
 (* chunkedGrab = one combineProfiles over all successes, for EVERY list length and chunk size:
    same profile (up to eqv), exact count, exact save flag, same error-ness *)
 Theorem chunked_equals_flat : forall P combine eqv, combine_laws P combine eqv ->
@@ -141,6 +135,10 @@ Proof.
   - intros a a' b H. subst. simpl. reflexivity.
   - intros A B _ _. simpl. rewrite concat_app, app_nil_r. reflexivity.
 Qed.
+
+(* every permutation of the goroutine indices is a completion order *)
+Example permutations_are_completion_orders : forall n o, Permutation.Permutation (seq 0 n) o -> covers n o.
+Proof. exact perm_covers. Qed.
 
 (* completion orders exist: command-line order, its reverse, anything that contains one *)
 Example covers_examples : covers 3 [0; 1; 2] /\ covers 3 [2; 0; 1] /\ covers 3 [1; 1; 2; 0; 2].
